@@ -121,7 +121,7 @@ func clip(s string, n int) string {
 	return s
 }
 
-func allProfiles() []prog.Profile { return append(prog.Profiles(), prog.ScaleProfile()) }
+func allProfiles() []prog.Profile { return append(prog.Profiles(), prog.ScaleProfile(), prog.SiblingsProfile()) }
 
 func worker(c *fw.Ctx) *fw.Stats {
 	st := fw.NewStats()
@@ -255,7 +255,7 @@ func init() {
 	fw.Register(&fw.Prop{
 		ID:    "C01",
 		Level: "exploration",
-		Rule: "every program of each grammar profile (expr, plus, assign, control, scope, call, load, comp, fold, escape, alias, chains; scale: 15 templates in which one table of the compiled form - globals, locals, constants, functions, free variables, defaults, arguments, jump distances - has n members, n on both sides of 2^7, 2^8, 2^14 and 2^16) of size level n, n = 1, 2, ... (iterative deepening), " +
+		Rule: "every program of each grammar profile (expr, plus, assign, control, scope, call, load, comp, fold, escape, alias, chains, siblings; scale: 15 templates in which one table of the compiled form - globals, locals, constants, functions, free variables, defaults, arguments, jump distances - has n members, n on both sides of 2^7, 2^8, 2^14 and 2^16) of size level n, n = 1, 2, ... (iterative deepening), " +
 			"rendered to source and executed by the production pipeline and by the reference evaluator under the needed options, all options on, and (every 64th) all 16 combinations of set/while/recursion/top-level control; " +
 			"compared: probe trace with argument values, final globals with aliasing, success/failure and the position of the failing operation; " +
 			"every statically valid program is also initialised a second time from the same compiled Program on the same thread and must observe the same, and so must the program written by Program.Write and read back by CompiledProgram, in a fresh environment; non-trivial = program runs in which at least one probe fired or the program failed",
